@@ -40,6 +40,68 @@ pub struct Case {
     /// probe with one line per built-in rule pattern of en and tr as well (about 70 more lines)
     #[serde(default, skip_serializing_if = "std::ops::Not::not")]
     pub full_probe: bool,
+    /// only the lines in which the first word of a pattern is repeated directly in front of the
+    /// match ('foo foo 5') are evaluated
+    #[serde(default, skip_serializing_if = "Option::is_none")]
+    pub restart_probe: Option<String>,
+    /// a line over the user family 'zero' (Cfg.zero_unit: items at the indices 0, 1, 2, each ten of
+    /// the one below) with its expected amount and item index
+    #[serde(default, skip_serializing_if = "Option::is_none")]
+    pub zero_line: Option<(String, f64, usize)>,
+}
+
+/// Reference for the pattern-restart lines: words and numbers; a surviving English rule rewrites a
+/// run '<its word> <n>' (unless it declines) into its result, rewriting goes on until no rule
+/// matches, words that are left over are dropped and the numbers are added.
+fn rewrite_value(rules: &[(String, char)], line: &str) -> f64 {
+    #[derive(Clone, PartialEq)]
+    enum K {
+        W(String),
+        N(f64),
+    }
+    let mut toks: Vec<K> = line.split(' ').map(|w| w.parse::<f64>().map(K::N).unwrap_or_else(|_| K::W(w.to_string()))).collect();
+    // (pattern words in pattern order, result)
+    let patterns = |id: char| -> Vec<&'static str> {
+        match id {
+            'A' => vec!["foo"],
+            'B' => vec!["foo", "bar"],
+            _ => vec![],
+        }
+    };
+    let result = |id: char, n: f64| -> Option<f64> {
+        match id {
+            'A' if n != 7.0 => Some(n + 100.0),
+            'B' => Some(n + 200.0),
+            _ => None,
+        }
+    };
+    // passes: every rule, in registration order, is applied at most once per pass (its first
+    // pattern that matches somewhere, at the leftmost place); passes go on while anything changes
+    for _ in 0..32 {
+        let mut changed = false;
+        for (l, id) in rules.iter() {
+            if l != "en" {
+                continue;
+            }
+            'patterns: for w in patterns(*id) {
+                for i in 0..toks.len().saturating_sub(1) {
+                    if let (K::W(x), K::N(n)) = (&toks[i], &toks[i + 1]) {
+                        if x == w {
+                            if let Some(v) = result(*id, *n) {
+                                toks.splice(i..i + 2, [K::N(v)]);
+                                changed = true;
+                                break 'patterns;
+                            }
+                        }
+                    }
+                }
+            }
+        }
+        if !changed {
+            break;
+        }
+    }
+    toks.iter().map(|t| if let K::N(n) = t { *n } else { 0.0 }).sum()
 }
 
 // ---- the rules ---------------------------------------------------------------------------
@@ -391,7 +453,7 @@ impl Prop for C18 {
                     for _ in 0..len {
                         ops.push(ch.pick(&alphabet).clone());
                     }
-                    Some(Case { ops, pooled: false, bfs: None, full_probe: false })
+                    Some(Case { ops, pooled: false, bfs: None, full_probe: false, restart_probe: None, zero_line: None })
                 },
             ));
         }
@@ -411,10 +473,43 @@ impl Prop for C18 {
                         choices.extend(alphabet.iter().cloned());
                         ops.push(ch.pick_dev(&choices).clone());
                     }
-                    Some(Case { ops, pooled: false, bfs: None, full_probe: false })
+                    Some(Case { ops, pooled: false, bfs: None, full_probe: false, restart_probe: None, zero_line: None })
                 },
             ));
         }
+        f.push(Family::new(
+            "index-zero-family",
+            Mode::Full,
+            "a user family whose lowest item has index 0 (zaa 0, zbb 1, zcc 2, each ten of the one below; item indices are plain usize values): 'N A to B' for every ordered pair and N in [1, 20, 500, 0,5], 'N A + M B' and the amount held in a variable: converts along the declared chain, also down to index 0",
+            move |ch| {
+                let names = ["zaa", "zbb", "zcc"];
+                let i = ch.choose(3);
+                let j = ch.choose(3);
+                let (nt, n) = *ch.pick(&[("1", 1.0), ("20", 20.0), ("500", 500.0), ("0,5", 0.5)]);
+                let factor = 10f64.powi(i as i32 - j as i32);
+                let (line, want, idx) = match ch.choose(3) {
+                    0 => (format!("{} {} to {}", nt, names[i], names[j]), n * factor, j),
+                    1 => (format!("{} {} + 5 {}", nt, names[i], names[j]), n + 5.0 / factor, i),
+                    _ => (format!("n = {}\nn {} to {}", nt, names[i], names[j]), n * factor, j),
+                };
+                Some(Case { ops: Vec::new(), pooled: false, bfs: None, full_probe: false, restart_probe: None, zero_line: Some((line, want, idx)) })
+            },
+        ));
+        f.push(Family::new(
+            "pattern-restart",
+            Mode::Full,
+            "every sequence of 1..=2 operations over [add A ('foo {NUMBER:n}'), add B ('foo {NUMBER:n}', 'bar {NUMBER:n}'), delete A, delete B], probed with lines in which a word stands directly in front of the matching run: 'foo foo 5', 'bar bar 5', 'foo bar 5', 'bar foo 5', 'qux foo 5', 'foo foo 7', '5 foo foo 5': the word in front is a plain word whether or not it equals the first word of the pattern",
+            move |ch| {
+                let alphabet = [Op::AddRule("en".into(), 'A'), Op::AddRule("en".into(), 'B'), Op::DelRule("en".into(), "A".into()), Op::DelRule("en".into(), "B".into())];
+                let len = 1 + ch.choose(2);
+                let mut ops = Vec::new();
+                for _ in 0..len {
+                    ops.push(ch.pick(&alphabet).clone());
+                }
+                let line = *ch.pick(&["foo foo 5", "bar bar 5", "foo bar 5", "bar foo 5", "qux foo 5", "foo foo 7", "5 foo foo 5"]);
+                Some(Case { ops, pooled: false, bfs: None, full_probe: false, restart_probe: Some(line.to_string()), zero_line: None })
+            },
+        ));
         {
             let d = tier.pick(3, 4);
             f.push(Family::new(
@@ -428,7 +523,7 @@ impl Prop for C18 {
                     for _ in 0..len {
                         ops.push(ch.pick(&alphabet).clone());
                     }
-                    Some(Case { ops, pooled: false, bfs: None, full_probe: true })
+                    Some(Case { ops, pooled: false, bfs: None, full_probe: true, restart_probe: None, zero_line: None })
                 },
             ));
         }
@@ -450,7 +545,7 @@ impl Prop for C18 {
                 if ops.is_empty() {
                     return None;
                 }
-                Some(Case { ops, pooled: false, bfs: None, full_probe: false })
+                Some(Case { ops, pooled: false, bfs: None, full_probe: false, restart_probe: None, zero_line: None })
             },
         ));
         let offset_depth = tier.pick(4, 6);
@@ -465,7 +560,7 @@ impl Prop for C18 {
                 for _ in 0..len {
                     ops.push(ch.pick(&alphabet).clone());
                 }
-                Some(Case { ops, pooled: false, bfs: None, full_probe: false })
+                Some(Case { ops, pooled: false, bfs: None, full_probe: false, restart_probe: None, zero_line: None })
             },
         ));
         {
@@ -487,7 +582,7 @@ impl Prop for C18 {
                     for _ in 0..len {
                         ops.push(ch.pick(&alphabet).clone());
                     }
-                    Some(Case { ops, pooled: true, bfs: None, full_probe: false })
+                    Some(Case { ops, pooled: true, bfs: None, full_probe: false, restart_probe: None, zero_line: None })
                 },
             ));
         }
@@ -503,7 +598,7 @@ impl Prop for C18 {
             &format!("explicit-state search over ALL {} operations from the fresh calculator; a state is the model state (ordered surviving rules per language, user family items) together with the fingerprint of the 21 probe observations; state constraint: at most {} live English and {} live Turkish custom rules (states beyond it are checked but not expanded); every edge replays the shortest history to its source state on a fresh calculator, applies the operation and runs the full oracle (return values, fresh-calculator equivalence, rule effect, chain arithmetic); depth bound {}", n, max_en, max_tr, depth),
             n,
             depth,
-            move |h| Case { ops: h.iter().map(|i| alphabet[*i].clone()).collect(), pooled: false, bfs: Some((max_en, max_tr)), full_probe: false },
+            move |h| Case { ops: h.iter().map(|i| alphabet[*i].clone()).collect(), pooled: false, bfs: Some((max_en, max_tr)), full_probe: false, restart_probe: None, zero_line: None },
         )]
     }
 
@@ -517,7 +612,38 @@ impl Prop for C18 {
         ]
     }
 
+    /// known finding: the matching run is skipped altogether, the line evaluates as if no rule
+    /// were registered (words dropped, numbers added)
+    fn defect_model(&self, name: &str, case: &Case, v: &Verdict) -> bool {
+        if name != "rule-not-applied" {
+            return false;
+        }
+        match &case.restart_probe {
+            Some(line) => {
+                let sum: f64 = line.split(' ').filter_map(|w| w.parse::<f64>().ok()).sum();
+                v.observed.ends_with(&format!("=> Number({:?}, Dec)", sum))
+            }
+            None => false,
+        }
+    }
+
     fn exec(&self, ctx: &mut Ctx, c: &Case) -> Verdict {
+        if let Some((line, want, idx)) = &c.zero_line {
+            let cfg = Cfg { zero_unit: true, ..Default::default() };
+            let r = obs::eval(ctx.calc(&cfg), "en", line);
+            let mut v = Verdict { input: format!("[zero family] {}", line.replace('\n', " \\n ")), class: "chain-compared", compared: true, expected: format!("Unit({:?}, zero, {})", want, idx), observed: r.brief(), evals: 1, ..Default::default() };
+            match &r {
+                Run::Panic(p) => {
+                    v.violation = Some(format!("panic: {}", p.message));
+                    v.site = Some(p.site.clone());
+                }
+                _ => match r.last() {
+                    Some(Slot::Ok { val: Val::Unit(x, g, i), .. }) if obs::close(*x, *want, 1e-9) && g == "zero" && i == idx => {}
+                    _ => v.violation = Some("the user-defined family does not convert along its declared chain".into()),
+                },
+            }
+            return v;
+        }
         let mut calc = match (c.pooled, ctx.pool.take()) {
             (true, Some(calc)) => calc,
             _ => ctx.fresh(&Cfg::default()),
@@ -587,6 +713,24 @@ impl C18 {
                 v.observed = trace;
                 return v;
             }
+        }
+        if let Some(line) = &c.restart_probe {
+            // a line matches a pattern when some run of its tokens does: the word in front of the
+            // run is a plain word (dropped), whether or not it equals the pattern's own first word
+            let r = obs::eval(calc, "en", line);
+            v.evals += 1;
+            v.input = format!("{:?} ;; {}", c.ops, line);
+            let wants: Vec<f64> = models.iter().map(|m| rewrite_value(&m.rules, line)).collect();
+            let ok = matches!(r.single(), Some(Slot::Ok { val: Val::Number(x, Base::Dec), .. }) if wants.contains(x));
+            v.expected = format!("{} -> Number({:?})", line, wants);
+            v.observed = format!("{}| {} -> {}", trace, line, r.brief());
+            if !ok {
+                if let Run::Panic(p) = &r {
+                    v.site = Some(p.site.clone());
+                }
+                v.violation = Some(format!("probe {:?}: a run of tokens of the line matches a surviving rule, but the line does not evaluate to the token the rule returns", line));
+            }
+            return v;
         }
         // probes after the last operation
         let observed = if c.full_probe { probe_full(calc) } else { probe(calc) };
